@@ -496,6 +496,48 @@ def gen_dirs_cv_bounds(rng, tier):
     return cases
 
 
+def gen_dirs_misc_bounds(rng, tier):
+    """MISC (IMAGE_DEBUG_MISC, 12 fixed bytes) and POGO (4 signature bytes) records whose SizeOfData moves byte by byte
+    across the fixed part, the data flush against the END of the buffer: in the overlay of a file (read through
+    PointerToRawData) and at the end of a truncated mapped view (round-6 change C01-r6-2 accepted MISC records of 4..11
+    bytes and handed out a 12-byte reference)"""
+    cases = []
+    for bits in (32, 64):
+        for ty, full in ((4, struct.pack("<IIB3s", 1, 20, 0, b"\0\0\0") + b"name.exe"), (13, b"LTCG" + struct.pack("<II", 0x1000, 16) + b".text\0\0\0")):
+            sizes = list(range(0, 22)) if tier != "quick" else [0, 3, 4, 5, 8, 11, 12, 13, 20]
+            for size in sizes:
+                # file: the record is the last `size` bytes of the file
+                L = Layout(rng, bits)
+                body = L.build()
+                tpos = None
+                L = Layout(rng, bits, rdata_last=True)
+                ent_off = L.rdata.alloc(bytes(28), 4, 0)
+                L.pe.dirs[DIR_DEBUG] = (L.rdata.rva(ent_off), 28)
+                data = bytearray(L.build())
+                while len(data) % 4:
+                    data.append(0)
+                fo = len(data)
+                ent = struct.pack("<IIHHIIII", 0, 0x5F000000, 0, 0, ty, size, 0, fo)
+                o = L.rdata.ptr(ent_off)
+                data[o:o + 28] = ent
+                data += full[:size]
+                cases.append([img_line(rng, bytes(data), rng.choice([0, 4, 8, 12]), "e"), "debug f%d dump" % bits, "debug wf dump"])
+                # view: the record is mapped at the very end of the (truncated) image
+                L = Layout(rng, bits, rdata_last=True)
+                ent_off = L.rdata.alloc(bytes(28), 4, 0)
+                pos = L.rdata.alloc(full + bytes(8), 4, 0)
+                L.pe.dirs[DIR_DEBUG] = (L.rdata.rva(ent_off), 28)
+                data = bytearray(L.build())
+                o = L.rdata.ptr(ent_off)
+                data[o:o + 28] = struct.pack("<IIHHIIII", 0, 0x5F000000, 0, 0, ty, size, L.rdata.rva(pos), L.rdata.ptr(pos))
+                view = load_view(L.pe, bytes(data))
+                if view is not None and L.rdata.rva(pos) + size <= len(view):
+                    view = view[:L.rdata.rva(pos) + size]
+                    al = (-len(view)) % 16
+                    cases.append([img_line(rng, view, al if al % 4 == 0 else rng.choice([0, 8]), "e"), "debug v%d dump" % bits, "debug wv dump"])
+    return cases
+
+
 def gen_dirs_overlay(rng, tier):
     """debug entries whose raw data lies in the OVERLAY of the file (after the raw data of the last section, inside the
     file; `AddressOfRawData` = 0 — not mapped): every payload kind (NB10, RSDS, POGO, MISC, unknown type), dword aligned
